@@ -178,7 +178,14 @@ LongKidCases == { Case("longkid", [Base EXCEPT !.serial = ser, !.isCa = ca, !.ak
                     ser \in {Auto, Given(<<9>>)}, ca \in {NoCa, CaU}, k \in {SubSeq(Bytes32, 1, 20), SubSeq(Bytes32, 1, 21), Bytes32, <<200>>, <<>>},
                     ik \in {SubSeq(Bytes32, 1, 20), SubSeq(Bytes32, 1, 21), Bytes32}, self \in Bool }
 
-Cases == LongKidCases \cup AutoSerialCases \cup PresenceCases \cup KuCases \cup PathLenCases \cup PrefixCases \cup SanCases \cup NcCases \cup DnCases
+(* validity windows of issued certificates that reach outside the issuer's own window (2020-01-01 .. 2040-01-01) *)
+Tm(y, mo, d, h, mi, sec) == [y |-> y, mo |-> mo, d |-> d, h |-> h, mi |-> mi, s |-> sec, ns |-> 0, off |-> 0]
+OutsideIssuerCases == { Case("validity", [Base EXCEPT !.nb = nb, !.na = na, !.isCa = ca], FALSE, "ed25519", "ed25519", Kid("sha256"), "keypair") :
+                          nb \in {Tm(2010, 5, 5, 5, 5, 5), Tm(2019, 12, 31, 23, 59, 59), Tm(2020, 1, 1, 0, 0, 0), Tm(1949, 12, 31, 23, 59, 59)},
+                          na \in {Tm(2039, 12, 31, 23, 59, 59), Tm(2040, 1, 1, 0, 0, 0), Tm(2040, 1, 1, 0, 0, 1), Tm(2041, 6, 1, 0, 0, 0), Tm(2055, 1, 1, 0, 0, 0),
+                                  Tm(9999, 12, 31, 23, 59, 59)},
+                          ca \in {NoCa, CaU} }
+Cases == OutsideIssuerCases \cup LongKidCases \cup AutoSerialCases \cup PresenceCases \cup KuCases \cup PathLenCases \cup PrefixCases \cup SanCases \cup NcCases \cup DnCases
          \cup KidCases \cup SerialCases \cup EkuCases \cup CustomCases \cup AlgCases
 
 (* ---- abstract keys for the model (the harness substitutes real keys and real digests) ---- *)
